@@ -303,11 +303,11 @@ class World:
         f.set_exception(exc or ResolveAPIError("no such host"))
         return True
 
-    def tcp_ok(self) -> bool:
+    def tcp_ok(self, broken: bool = False) -> bool:
         f = self.pending(self.tcp_futs)
         if f is None:
             return False
-        s = simnet.SimSocket()
+        s = simnet.SimSocket(broken=broken)
         self.socks.append(s)
         f.set_result(s)
         return True
